@@ -29,6 +29,7 @@ const (
 type Beh struct {
 	Kind    int
 	Code    int // exit status for BehExit
+	Spin    int // the hook first yields the processor this many times (a slow interceptor)
 	PanKind int // what BehPanic raises: 0 *PanicValue, 1 an error value, 2 a runtime error (nil map write), 3 a string
 }
 
@@ -150,7 +151,13 @@ func (lockedDiscard) Write(b []byte) (int, error) { return len(b), nil }
 func Quiet() {
 	cli.VerifSetStdErr(io.Writer(lockedDiscard{}))
 	cli.VerifSetStdOut(io.Writer(lockedDiscard{}))
+	// a stateless exit stub usable from any number of goroutines: the status travels as a panic value to the
+	// caller of Run, where it is attributed to the application that ran on that goroutine
+	cli.VerifSetExiter(func(c int) { panic(&SharedExit{Code: c}) })
 }
+
+// SharedExit is what the shared exit stub raises
+type SharedExit struct{ Code int }
 
 func envName(id, i int, o *OptDecl) string {
 	if o.Flag {
@@ -208,6 +215,9 @@ func buildApp(a *App, o *Obs, setEnv *[]string) (*cli.Cli, map[int]*recs, func(c
 		name := fmt.Sprintf("%s%d", tag, id)
 		return func() {
 			o.Events = append(o.Events, name)
+			for i := 0; i < b.Spin; i++ {
+				runtime.Gosched()
+			}
 			if snapshot {
 				o.Ran++
 				o.snapshot(a, all)
@@ -502,6 +512,9 @@ func OutcomeKey(p *Prog, o *Obs) string {
 	case o.SpecErr != nil:
 		return "SPECERR"
 	case o.Pan != nil:
+		if se, ok := o.Pan.(*SharedExit); ok {
+			return fmt.Sprintf("EXIT %d after %s", se.Code, o.EventStr())
+		}
 		return fmt.Sprintf("PANIC %v", o.Pan)
 	case o.Exit != nil:
 		return fmt.Sprintf("EXIT %d", *o.Exit)
